@@ -97,7 +97,7 @@ func routeScenario(v6 bool, xids, ths []byte, evs [][]byte) []callOutcome {
 				hw := labHW
 				op := dhcpv4.OpcodeBootReply
 				if kind == 1 {
-					hw = net.HardwareAddr{2, 0, 0, 0, 0, 9}
+					hw = []net.HardwareAddr{{2, 0, 0, 0, 0, 9}, {}, labHW[:3], append(append(net.HardwareAddr{}, labHW...), 0, 0)}[int(p+x)%4]
 				}
 				if kind == 2 {
 					// anything but BOOTREPLY: the decoder accepts every op value
